@@ -51,7 +51,7 @@ ASSUMPTIONS = [
     "derivatives exist but are not linear in the direction), so no Jacobian can satisfy the property",
     "fixed-dimension methods do not support training_data_gradients (documented RuntimeError): not generated",
 ]
-BOUND = {'quick': '16 shards x 150 Hypothesis cases', 'thorough': '32 shards x 3000 Hypothesis cases'}
+BOUND = {'quick': '16 shards x 220 Hypothesis cases', 'thorough': '32 shards x 8000 Hypothesis cases'}
 MIN_CLASS_FRACTION = {'judged': 0.6, 'kind:table': 0.3, 'kind:train': 0.1, 'kind:spline': 0.1,
                       'kind:splinecomp': 0.05, 'dim3': 0.05, 'oracle:cs': 0.3, 'oracle:fd': 0.03,
                       'oracle:linearity': 0.15, 'oracle:cs-values': 0.02}
@@ -755,7 +755,7 @@ def strategy():
 
 def units(tier, seed):
     nshards = 16 if tier == 'quick' else 32
-    per = 150 if tier == 'quick' else 3000
+    per = 220 if tier == 'quick' else 8000
     return [{'kind': 'random', 'n': per, 'seed': core.shard_seed(seed, ID, i)} for i in range(nshards)]
 
 
